@@ -1,4 +1,4 @@
-package main
+package strgen
 
 import (
 	"strings"
